@@ -1,8 +1,8 @@
 #!/bin/sh
 # usage: tools/process_seed.sh C28 [C22 C29 ...extra checks]  -- confirm both changes, keep the confirmed ones, run the checks
-ID=$1; shift; EXTRA="$*"
+SEEDROOT=${SEEDROOT:-/tmp/seed}; NOFFSET=${NOFFSET:-0}; export SEEDROOT NOFFSET; ID=$1; shift; EXTRA="$*"
 for N in 1 2; do
-  [ -f /tmp/seed/$ID-out/change$N.diff ] || continue
+  [ -f $SEEDROOT/$ID-out/change$N.diff ] || continue; M=$((N+NOFFSET))
   R=$(tools/confirm_seed.sh $ID $N 2>&1 | head -1); echo "$R"
   case "$R" in
     *"demo clean exit=0, demo patched exit=0"*|*"PATCH DOES NOT APPLY"*) echo "  -> NOT kept"; continue;;
@@ -11,7 +11,8 @@ for N in 1 2; do
   esac
   NEEDS=$(python3 - "$ID" "$N" <<'PY'
 import re,sys
-p="/tmp/seed/%s-out/notes%s.md"%(sys.argv[1],sys.argv[2])
+import os
+p=os.environ.get("SEEDROOT","/tmp/seed")+"/%s-out/notes%s.md"%(sys.argv[1],sys.argv[2])
 try: s=open(p).read()
 except Exception: s=""
 m=re.search(r"(?is)(trigger|needs?|manifest)[^\n]*\n(.{0,600})", s)
@@ -20,11 +21,11 @@ print(t[:500] or "see notes.md")
 PY
 )
   tools/keep_seed.py $ID $N "$NEEDS" > /dev/null
-  if [ -n "$EXTRA" ]; then python3 - "$ID-$N" $ID $EXTRA <<'PY'
+  if [ -n "$EXTRA" ]; then python3 - "$ID-$M" $ID $EXTRA <<'PY'
 import json,sys
 p='/verif/seeded/%s/meta.json'%sys.argv[1]; m=json.load(open(p)); m["checks"]=sys.argv[2:]; json.dump(m,open(p,"w"),indent=1)
 PY
   fi
-  timeout 1500 python3 tools/selftest.py --seeded --only $ID-$N 2>&1 | head -1 | cut -c1-260
+  timeout 1500 python3 tools/selftest.py --seeded --only $ID-$M 2>&1 | head -1 | cut -c1-260
 done
-git -C /repo worktree remove --force /tmp/seed/$ID 2>/dev/null
+git -C /repo worktree remove --force $SEEDROOT/$ID 2>/dev/null
